@@ -7,6 +7,7 @@
    theorems of Go's type system that the judgment must satisfy on the whole space (symmetry of the
    symmetric operators, ==/!= and </>= duality, representability monotonicity, var/assign/argument coherence). *)
 EXTENDS Types, TypesCfg, TLC, Json, SequencesExt
+CONSTANT NoPreEval      \* unused; declaring a CONSTANT stops TLC from pre-evaluating this module's (large) definitions at start-up
 \* Tier (1 quick, 2 thorough), Part, Parts come from TypesCfg: this TLC process handles the programs with index % Parts = Part
 
 (* ---------------------------------------------------------------- AST constructors *)
@@ -377,22 +378,28 @@ MvProgs == Flat(Map1(MvRhs, LAMBDA r : <<
 (* ---------------------------------------------------------------- the case set *)
 Progs == ExprProgs \o TermProgs \o DeclProgs \o ImportProgs \o TopProgs \o ScopeProgs \o CallProgs \o MvProgs
 Verd3(v) == IF v = "ok" THEN "accept" ELSE IF v = "undef" THEN "undef" ELSE "reject"
-MineSeq == SetToSeq({j \in 1..Len(Progs) : j % Parts = Part})
-\* (this module declares no CONSTANTS, so TLC evaluates Progs and Cases once, at start-up)
-Cases == [n \in 1..Len(MineSeq) |-> LET j == MineSeq[n] v == Verdict(Progs[j]) IN [id |-> j, verdict |-> Verd3(v), rule |-> v, prog |-> Progs[j]]]
-ASSUME ndJsonSerialize("cases.ndjson", Cases)
+\* Progs is bound ONCE by the LET (a top-level reference would re-evaluate the whole sequence each time)
+Cases == LET P == Progs
+             MS == SetToSeq({j \in 1..Len(P) : j % Parts = Part}) IN
+         [m \in 1..Len(MS) |-> LET j == MS[m] v == Verdict(P[j]) IN [id |-> j, verdict |-> Verd3(v), rule |-> v, prog |-> P[j]]]
 
-(* ---------------------------------------------------------------- model check: one state per program.
-   n = 0 is the root, n = -b a block of BlockSize programs (so that TLC's workers share the programs), n > 0 the
-   n-th program of this process. *)
+(* ---------------------------------------------------------------- step 1 (GenInit/GenNext): export the cases *)
 VARIABLE n
+GenInit == n = 0 /\ ndJsonSerialize("cases.ndjson", Cases)
+GenNext == UNCHANGED n
+
+(* ---------------------------------------------------------------- step 2 (Init/Next): model check, one state per
+   exported program.  n = 0 is the root, n = -b a block of BlockSize programs (so that TLC's workers share the
+   programs), n > 0 the n-th program of cases.ndjson. *)
 BlockSize == 64
-NBlocks == (Len(Cases) + BlockSize - 1) \div BlockSize
+NBlocks == (Len(TypesCasesIn) + BlockSize - 1) \div BlockSize
 Init == n = 0
 Next == \/ n = 0 /\ n' \in {-b : b \in 1..NBlocks}
-        \/ n < 0 /\ n' \in {m \in 1..Len(Cases) : (m - 1) \div BlockSize = -n - 1}
-prog == Cases[n].prog
-verd == Cases[n].rule
+        \/ n < 0 /\ n' \in {m \in 1..Len(TypesCasesIn) : (m - 1) \div BlockSize = -n - 1}
+prog == TypesCasesIn[n].prog
+verd == TypesCasesIn[n].rule
+\* the exported verdict is the judgment's (re-evaluated here on the deserialised record)
+ExportFaithful == n > 0 => Verdict(prog) = verd
 
 Acc(p) == LET v == Verdict(p) IN IF v = "undef" THEN "undef" ELSE IF v = "ok" THEN "accept" ELSE "reject"
 AccI == Verd3(verd)      \* the program of this state
